@@ -153,6 +153,16 @@ def stress_literal_infinities(ctx, x):
     return ctx.select(r == pinf, x, ctx.select(r == ninf, -x, r))
 
 
+def stress_derived_names(ctx, x, x_0):
+    # user names that look like the names the registry derives on a collision (x -> ..x..0.., constant -> ..constant..0..)
+    # next to an anonymous literal 0 that is used twice: traced twice on one context (two signatures), the second
+    # trace's `x` and `constant` collide with the first one's
+    constant = x * x_0 + x
+    t_0 = constant * constant - x_0
+    r = ctx.select(t_0 > 0, t_0, ctx.constant(0, x)) + ctx.select(x > 0, constant, ctx.constant(0, x))
+    return ctx(r)
+
+
 def stress_shadow(ctx, x):
     # local names chosen to collide with names that library algorithms use internally
     one = ctx.constant(1, x)
@@ -183,6 +193,7 @@ STRESS = {
     "stress_user_name_equals_auto_name": (stress_user_name_equals_auto_name, 2, "float"),
     "stress_constant_names": (stress_constant_names, 2, "float"),
     "stress_constant_left_compare": (stress_constant_left_compare, 1, "complex"),
+    "stress_derived_names": (stress_derived_names, 2, "float"),
 }
 # programs that only some targets / configurations accept on the unchanged tree: explicit requests
 STRESS_EXPLICIT = [
